@@ -83,6 +83,13 @@ CHECKS.update({
                 technique="TLA+ specification of grouping; TLC-enumerated expression trees replayed through ast.Parse/EvalBool in re-spellings"),
 })
 
+CHECKS.update({
+    "C10": dict(cat="exploration", ref="DESIGN.md 5/C10", note="Trusted base: TLC evaluating Grammar.tla (a transcription of ZitiQl.g4 at token level); the lexeme table of the harness; the repository's lexer for confirming token kinds of a rendering. Bounded token-sequence length.",
+                text="Membership in the language is an explicit TLA+ recogniser; TLC classifies all bounded token sequences, the real parser must reject every non-sentence "
+                     "(incl. unknown characters) and never panic; every operator/operand type mix is parsed and evaluated on populated and empty stores without panic.",
+                technique="TLA+ recogniser of the grammar evaluated by TLC over bounded-exhaustive token sequences; replay through zitiql/ast parse + evaluation"),
+})
+
 NOT_YET = {
     "C01": "check under construction in this session (Query.tla); not claimed until it runs clean on the unchanged tree",
     "C02": "check under construction (Query.tla / ScanAlgo.tla)",
